@@ -137,7 +137,9 @@ def run_property(pid, thorough, seed, res):
     cs = []
     for g in ALL_GROUPS:
         cs += l2.cases(cfg["l2"], r, g, max(1, n2 // len(ALL_GROUPS)) * (4 if broken else 1))
-    for b in l1_bad[:400]:
+    def valid_input(b):       # directed cases must be inputs the property quantifies over
+        return not any(x in t for t in b["tags"] for x in ("norm+1.1", "norm-1.1", "norm+10", "norm-10", "normfar"))
+    for b in [b for b in l1_bad if valid_input(b)][:400]:
         c = case_from_request(pid, b["request"], r)
         if c:
             cs.append(c)
